@@ -163,6 +163,51 @@ def _doctests(c, rng, idx):
     c.fp = fp_of("D", name)
 
 
+_DT_CODE = """$PROBLEM date and clock time
+$INPUT ID DAT2=DROP TIME AMT DV WGT
+$DATA data.csv IGNORE=@
+$SUBROUTINE ADVAN1 TRANS2
+$PK
+CL = THETA(1)*EXP(ETA(1))*WGT/70
+V = THETA(2)*EXP(ETA(2))
+S1 = V
+$ERROR
+Y = F + F*EPS(1)
+$THETA (0,0.1)
+$THETA (0,5)
+$OMEGA 0.1
+$OMEGA 0.1
+$SIGMA 0.05
+$ESTIMATION METHOD=1 INTER
+"""
+_DT_DATA = """ID,DAT2,TIME,AMT,DV,WGT
+1,2021-03-01,07:30,100,0,70
+1,2021-03-01,09:45,0,12.5,70
+1,2021-03-02,07:30,100,0,70
+1,2021-03-02,11:00,0,15.1,70
+2,2021-04-10,13:00,100,0,82
+2,2021-04-10,19:20,0,8.7,82
+2,2021-04-11,13:00,0,3.9,82
+"""
+_dt_model = []
+
+
+def _datetime_model():
+    """A model whose dataset has a date column and clock times (reaches the date/time branches of the data functions)."""
+    import os
+    from pathlib import Path
+
+    from pharmpy.modeling import read_model
+
+    if not _dt_model:
+        d = Path(os.environ["VERIF_SCRATCH"]) / "c06dt"
+        d.mkdir(parents=True, exist_ok=True)
+        (d / "data.csv").write_text(_DT_DATA)
+        (d / "run1.mod").write_text(_DT_CODE)
+        _dt_model.append(read_model(d / "run1.mod"))
+    return _dt_model[0]
+
+
 def _sweep(c, rng, idx):
     import pharmpy.modeling as pm
 
@@ -170,10 +215,15 @@ def _sweep(c, rng, idx):
 
     with contracts.off():
         starts = histories.start_models()
-    sname = rng.choice(sorted(starts))
-    model = _fresh(starts[sname])
+    if rng.random() < 0.25:
+        with contracts.off():
+            sname, model = "datetime", _fresh(_datetime_model())
+        names = [n for n in _functions if "time" in n or "date" in n] + rng.sample(_functions, 15)
+    else:
+        sname = rng.choice(sorted(starts))
+        model = _fresh(starts[sname])
+        names = rng.sample(_functions, 25)
     called = []
-    names = rng.sample(_functions, 25)
     with contextlib.redirect_stdout(io.StringIO()), contextlib.redirect_stderr(io.StringIO()):
         for name in names:
             f = getattr(pm, name)
